@@ -29,19 +29,20 @@ type Event struct {
 
 // RunSpec describes a free-running workload of one process.
 type RunSpec struct {
-	Dir         string    `json:"dir"`
-	Proc        int       `json:"proc"`
-	URLs        []string  `json:"urls"`
-	BundleDir   string    `json:"bundle_dir"` // <id>.der files (base) and optionally <id>.delta.der
-	WriterIDs   [][]int64 `json:"writer_ids"` // per writer client: the bundle ids it stores, in order
-	Readers     int       `json:"readers"`
-	ReadsEach   int       `json:"reads_each"`
-	SleepMaxUS  int       `json:"sleep_max_us"` // hook sleeps 0..max at every point
-	ReadGapUS   int       `json:"read_gap_us"`  // pause between the reads of one reader (0 = none)
-	Seed        uint64    `json:"seed"`
-	Out         string    `json:"out"`
-	SharedCache bool      `json:"shared_cache"` // one FileCache value for all clients, else one per client
-	StartAt     int64     `json:"start_at"`     // CLOCK_MONOTONIC instant at which all processes start
+	Dir            string    `json:"dir"`
+	Proc           int       `json:"proc"`
+	URLs           []string  `json:"urls"`
+	BundleDir      string    `json:"bundle_dir"` // <id>.der files (base) and optionally <id>.delta.der
+	WriterIDs      [][]int64 `json:"writer_ids"` // per writer client: the bundle ids it stores, in order
+	Readers        int       `json:"readers"`
+	ReadsEach      int       `json:"reads_each"`
+	SleepMaxUS     int       `json:"sleep_max_us"`    // hook sleeps 0..max at every point
+	ReadGapUS      int       `json:"read_gap_us"`     // pause between the reads of one reader (0 = none)
+	OutlastWriters bool      `json:"outlast_writers"` // readers go on (at their gap) until this process's writers have finished, then read 3 more times
+	Seed           uint64    `json:"seed"`
+	Out            string    `json:"out"`
+	SharedCache    bool      `json:"shared_cache"` // one FileCache value for all clients, else one per client
+	StartAt        int64     `json:"start_at"`     // CLOCK_MONOTONIC instant at which all processes start
 }
 
 // GetResult is what `worker cache-get` prints per URL.
